@@ -227,4 +227,21 @@ REFACTORED_MUTANTS = [
     ("factory-impl-split-off-by-one", ["C36"], "C36b-r4", "_src/core/compiler/initial_style_primitive.py",
      r"args\[:num_consts\], args\[num_consts:\]", "args[:num_consts], args[num_consts + 1:]"),
     ("reverse-scan-forward", ["C37"], "C37b-r3", "_src/generative_functions/distributions/custom/discrete_hmm.py", r"reverse=True,", "reverse=False,"),
+    ("namedtuple-carry-counter-stuck", ["C10", "C12", "C16"], "C10b-r2", "_src/generative_functions/combinators/scan.py", r"carry\._replace\(idx=carry\.idx \+ 1\)", "carry._replace(idx=carry.idx)"),
+    ("split-rows-shared-key", ["C10", "C11"], "C10b-r3", "_src/generative_functions/combinators/vmap.py", r"subtrace\.project\(sub_key, selection\)", "subtrace.project(key, selection)"),
+    ("hoisted-setter-slot-zero", ["C20"], "C13b-r1", "_src/core/compiler/staging.py", r"shapes\[static_idx\] = f\(\*args\)", "shapes[0] = f(*args)"),
+    ("transposed-columns-swapped", ["C01", "C03", "C13"], "C13b-r3", "_src/generative_functions/combinators/switch.py",
+     r"subtraces, weights = map\(list, zip\(\*multi_switch\(idx, fs, f_args\)\)\)", "weights, subtraces = map(list, zip(*multi_switch(idx, fs, f_args)))"),
+    ("trivial-stage-wrong-side", ["C17", "C22"], "C17b-r1", "_src/core/generative/choice_map.py",
+     r"if c2\.static_is_empty\(\):\n            return c1\n        if c1\.static_is_empty\(\):\n            return c2", "if c2.static_is_empty():\n            return c2\n        if c1.static_is_empty():\n            return c2"),
+    ("filtered-pair-right-first", ["C17", "C22"], "C17b-r3", "_src/core/generative/choice_map.py", r"for c in \(c1, c2\) if key in c\.mapping", "for c in (c2, c1) if key in c.mapping"),
+    ("hoisted-leaf-no-wrap", ["C20", "C23"], "C20b-r3", "_src/core/compiler/staging.py", r"vs\[idx % len\(vs\)\]", "vs[idx]"),
+    ("slot-method-slot-zero", ["C20"], "C20b-r4", "_src/core/compiler/staging.py", r"shapes\[self\.position\] = self\.fn\(\*self\.args\)", "shapes[0] = self.fn(*self.args)"),
+    ("leapfrog-state-momenta-not-updated", ["C28"], "C28b-r1", "_src/inference/requests/hmc.py",
+     r"carry\._replace\(\n                trace=new_trace, values=values, momenta=momenta\n            \)", "carry._replace(\n                trace=new_trace, values=values\n            )"),
+    ("flat-momenta-one-seed", ["C28"], "C28b-r3", "_src/inference/requests/hmc.py", r"jrand\.fold_in\(key, int_seed\), v\.shape", "jrand.fold_in(key, 0), v.shape"),
+    ("flat-unzip-not-complementary", ["C28"], "C28b-r4", "_src/inference/requests/hmc.py",
+     r"\[None if d else v for v, d in zip\(leaves, differentiable\)\]", "[v if d else None for v, d in zip(leaves, differentiable)]"),
+    ("module-walker-skips-branch", ["C33"], "C33b-r2", "_src/core/generative/choice_map.py", r"for chm in chms\[1:\]:", "for chm in chms[2:]:"),
+    ("narrowed-table-not-narrowed", ["C11", "C17", "C35"], "C33b-r4", "_src/core/generative/choice_map.py", r"narrowed = \{addr: selection\(addr\) for addr", "narrowed = {addr: selection for addr"),
 ]
